@@ -15,10 +15,15 @@ EXPLANATION = (
     "/ text must read back to the same value, rows iterate without the index, labels are numbered from 1, the "
     "numbered/un-numbered header choice is the documented truth table; (4) reader: the per-column numeric conversion is "
     "evaluated over the finite column-kind domain {numeric, text, mixed} and must be all-or-nothing, is applied to "
-    "every block, and the row table is built with the parsed labels as columns (so an empty block keeps its labels).")
-ASSUMPTIONS = TRUSTED + ["the structure of the recursive-descent parser and of the character tokenizer (beyond the constants "
-                         "it tests) is not decided: the second sentence of the statement (arbitrary permitted STAR texts) is "
-                         "out of reach for this family"]
+    "every block, and the row table is built with the parsed labels as columns (so an empty block keeps its labels); (5) the "
+    "reader followed on literal texts (constant propagation through the tokenizer's character loop and the parser's while "
+    "loops, nothing executed): tokens of 250 probe texts covering every (state, character class, position) of the tokenizer, "
+    "blocks / labels / rows / comments of 20 probe files covering the parser's productions, and the text Starfile.write "
+    "produces read back by Starfile.read.")
+ASSUMPTIONS = TRUSTED + ["the tokenizer and the recursive-descent parser are decided on a finite cover of probe texts (every "
+                         "transition of the tokenizer over its character classes, every production of the parser with and "
+                         "without its optional parts), not on all texts: the second sentence of the statement (arbitrary "
+                         "permitted STAR texts) is out of reach for this family"]
 
 RD, WR = "starfileio.Starfile.read", "starfileio.Starfile.write"
 
